@@ -339,10 +339,12 @@ def _dec_prim(p, doc, st):
         if 'max_length' in a and len(doc) > a['max_length']:
             raise Rej('longer than max_length')
         if 'pattern' in a:
-            if re.search(a['pattern'], doc) is None:
+            # compiler and runtime agree that the pattern is anchored at the start; whether it must
+            # also reach the end is only pinned by the runtime
+            if re.match('(?:' + a['pattern'] + ')', doc) is None:
                 raise Rej('pattern does not match')
             if re.fullmatch('(?:' + a['pattern'] + ')', doc) is None:
-                _unspec(st, 'pattern matches a part of the string only')
+                _unspec(st, 'pattern matches a prefix of the string only')
         return doc
     if n in INT_RANGES:
         if isinstance(doc, bool):
